@@ -40,7 +40,8 @@ TARGETS = {
 # request: the explorer may deliver environment events (the caller cancels, the queue timeout fires) before it goes on
 PARK_POINTS = {
     'protocol/rpcprovider/resource_limiter.go': [
-        ("if err := sem.Acquire(qr.ctx, 1); err != nil {\n\t\t\tqr.result <- err\n\t\t\tcontinue\n\t\t}\n",
+        # (a regular expression: the arguments of Acquire may differ on the tree under test)
+        (r"if err := sem\.Acquire\([^\n]*\); err != nil \{\n\t\t\tqr\.result <- err\n\t\t\tcontinue\n\t\t\}\n",
          "\t\tverifclock.Park(\"worker-holds-permit\")\n"),
     ],
 }
@@ -81,9 +82,11 @@ def main():
         # preemption points: text inserted after an exact anchor of the rewritten file (must match exactly once)
         for (anchor, insert) in PARK_POINTS.get(rel, []):
             new = open(dst).read()
-            if new.count(anchor) != 1:
-                die('park anchor %r found %d times in %s' % (anchor, new.count(anchor), src))
-            new = new.replace(anchor, anchor + insert)
+            import re
+            found = re.findall(anchor, new)
+            if len(found) != 1:
+                die('park anchor %r found %d times in %s' % (anchor, len(found), src))
+            new = re.sub(anchor, lambda m: m.group(0) + insert, new, count=1)
             if ('"%s/clock"' % MOD) not in new:
                 new = new.replace('import (', 'import (\n\tverifclock "%s/clock"' % MOD, 1)
             open(dst, 'w').write(new)
